@@ -72,6 +72,9 @@ def _design_outputs(seed):
             m.find_design()
             m.prepare_results("p", "n", "a", "i")
             m.write_output_files(d)
+            # the same report written again under two suffixes that differ only after a dot (versioned runs in one directory)
+            m.write_output_files(d, "_v1.0")
+            m.write_output_files(d, "_v1.5")
             g = m._search.ghe
             gf, _ = g.grab_g_function(g.B_spacing / float(g.bhe.b.H))
             curve = list(zip([float(x) for x in gf.x], [float(y) for y in gf.y]))
@@ -82,10 +85,15 @@ def _design_outputs(seed):
         for name in ("Loadings", "BoreFieldData", "Gfunction"):
             with open(d / f"{name}.csv", newline="") as f:
                 rows[name] = list(csv.reader(f))
+        suffixed = {}
+        for suf in ("_v1.0", "_v1.5"):
+            for name in ("Loadings", "BoreFieldData", "Gfunction", "TimeDependentValues"):
+                f2 = d / f"{name}{suf}.csv"
+                suffixed[f"{name}{suf}.csv"] = f2.read_bytes() == (d / f"{name}.csv").read_bytes() if f2.exists() else None
         summary = json.loads((d / "SimulationSummary.json").read_text())
         return {"loads": loads, "rows": rows, "curve": curve, "coords": coords, "times": times, "hp": hp,
                 "max_time": summary["simulation_results"]["max_hp_eft_time"]["value"], "min_time": summary["simulation_results"]["min_hp_eft_time"]["value"],
-                "cfg": cfg}
+                "cfg": cfg, "suffixed": suffixed}
     except Exception as ex:  # noqa: BLE001
         return {"error": f"{type(ex).__name__}: {ex}", "cfg": cfg}
     finally:
@@ -206,6 +214,10 @@ def run_c19() -> int:
                     break
         if not ok or bad:
             chk.violation(f"C19 Loadings table does not echo the input loads with calendar labels (rows {len(lr)}, first mismatch {bad})", {"cfg": o["cfg"], "mismatch": bad})
+        for fname, same in o["suffixed"].items():
+            if same is not True:
+                chk.violation(f"C19 table file {fname} {'was not written' if same is None else 'differs from the table of the same report written without suffix'}", {"cfg": o["cfg"], "file": fname})
+                break
         br = [[float(a), float(b)] for a, b in o["rows"]["BoreFieldData"][1:]]
         if br != o["coords"]:
             chk.violation("C19 BoreFieldData table differs from the selected coordinates", {"cfg": o["cfg"], "table": br[:5], "selected": o["coords"][:5]})
